@@ -4,6 +4,7 @@ use serde_json::Value;
 
 pub mod deb822;
 pub mod edit;
+pub mod rel;
 
 #[derive(Serialize, Deserialize, Default, Debug, Clone)]
 pub struct Viol {
@@ -52,6 +53,7 @@ pub fn run_case(stage: &str, case: &Value, seed: u64) -> Outcome {
         "deb822_docs" => deb822::run_docs(case, seed),
         "deb822_files" => deb822::run_files(case, seed),
         "deb822_edit" => edit::run_edge(case, seed),
+        "rel_strings" => rel::run_strings(case, seed),
         _ => panic!("unknown stage {}", stage),
     }
 }
@@ -69,6 +71,7 @@ pub fn features(stage: &str, case: &Value) -> Vec<String> {
     match stage {
         "deb822_strings" => deb822::string_features(case),
         "deb822_docs" => deb822::doc_features(case),
+        "rel_strings" => rel::string_features(case),
         _ => vec![],
     }
 }
